@@ -109,12 +109,14 @@ pub fn produce(rt: &tokio::runtime::Runtime, case: &Value, src: &Source, path: &
 	remove_path(path);
 	let origin = case["origin"].as_str().unwrap_or("writer");
 	if origin == "writer" {
-		let mut mem = src.mem_reader();
+		let mut plain = src.mem_reader();
+		let mut sparse = SparseMemReader(src.mem_reader());
+		let mem: &mut dyn TilesReaderTrait = if bool_of(case, "sparse") { &mut sparse } else { &mut plain };
 		if src.fmt == "directory" {
 			std::fs::create_dir_all(path).unwrap();
 		}
 		let p = path.to_str().unwrap().to_string();
-		return match catch(|| rt.block_on(write_to_filename(&mut mem, &p))) {
+		return match catch(|| rt.block_on(write_to_filename(mem, &p))) {
 			Ok(Ok(())) => (true, String::new()),
 			Ok(Err(e)) => (false, format!("{e:#}")),
 			Err(p) => (false, format!("panic: {p}")),
@@ -367,7 +369,14 @@ pub fn run_case(rt: &tokio::runtime::Runtime, dir: &Path, case: &Value, n: usize
 		}
 	}
 	let path = file_path(dir, &src.fmt, "case");
+	let phase = |p: &str| {
+		if let Ok(f) = std::env::var("VERIF_PHASE_FILE") {
+			let _ = std::fs::write(f, p);
+		}
+	};
+	phase("write");
 	let (write_ok, write_err) = produce(rt, case, &src, &path);
+	phase("read");
 	let mut ev = json!({"ev":"case","id":n,"origin":case["origin"].as_str().unwrap_or("writer"),"fmt":src.fmt,"tf":src.tf,"tc":src.tc,
 		"tiles":src.tiles_json(),"write_ok":write_ok as u8,"write_err":write_err,"choices":case.get("choices").cloned().unwrap_or(json!({}))});
 	let want_decode = only == "C01" || only == "all";
@@ -506,6 +515,102 @@ pub fn replay(input: &str, output: &str, dir: &str, only: &str) -> Value {
 	}
 	let lines = out.finish();
 	json!({"cases": cases.len(), "events": lines})
+}
+
+/// every case in its own child process under an address-space limit and a time limit: a writer or reader that needs memory
+/// or time in proportion to a level's bounding box (not to the tile set) dies or hangs; that is recorded as the outcome of
+/// the phase it was in ("write": write_ok = 0; "read": the reader did not open)
+pub fn isolated(input: &str, output: &str, dir: &str, only: &str) -> Value {
+	let cases = read_ndjson(input);
+	let mut out = Out::create(output);
+	let exe = std::env::current_exe().unwrap();
+	std::fs::create_dir_all(dir).unwrap();
+	let limit_s: u64 = std::env::var("VERIF_ISOLATED_TIMEOUT").ok().and_then(|s| s.parse().ok()).unwrap_or(90);
+	let workers = 6usize.min(cases.len().max(1));
+	let results: Vec<Vec<(usize, Value)>> = std::thread::scope(|sc| {
+		let (cases, exe) = (&cases, &exe);
+		let hs: Vec<_> = (0..workers)
+			.map(|w| {
+				sc.spawn(move || {
+					let d = Path::new(dir).join(format!("iso{w}"));
+					std::fs::create_dir_all(&d).unwrap();
+					let (pin, pout, pphase) = (d.join("in.ndjson"), d.join("out.ndjson"), d.join("phase"));
+					let mut v = vec![];
+					let mut i = w;
+					while i < cases.len() {
+						{
+							let mut o = Out::create(pin.to_str().unwrap());
+							o.emit(&cases[i]);
+							o.finish();
+						}
+						let _ = std::fs::remove_file(&pout);
+						let _ = std::fs::remove_file(&pphase);
+						let mut child = std::process::Command::new(exe)
+							.args(["replay", "CONTAINER", pin.to_str().unwrap(), pout.to_str().unwrap(), d.to_str().unwrap(), only])
+							.env("VERIF_NO_SPLIT", "1")
+							.env("VERIF_WORKERS", "1")
+							.env("VERIF_AS_LIMIT_GB", "6")
+							.env("VERIF_PHASE_FILE", pphase.to_str().unwrap())
+							.stdout(std::process::Stdio::null())
+							.stderr(std::process::Stdio::null())
+							.spawn()
+							.expect("spawn child");
+						let t0 = std::time::Instant::now();
+						let status = loop {
+							match child.try_wait().unwrap() {
+								Some(st) => break if st.success() { "ok".to_string() } else { format!("abort: the process died ({st})") },
+								None if t0.elapsed().as_secs() > limit_s => {
+									let _ = child.kill();
+									let _ = child.wait();
+									break format!("timeout: no result within {limit_s} s");
+								}
+								None => std::thread::sleep(Duration::from_millis(20)),
+							}
+						};
+						let evs = if status == "ok" { read_ndjson(pout.to_str().unwrap()) } else { vec![] };
+						let mut e = if let Some(e) = evs.into_iter().next() {
+							e
+						} else {
+							let c = &cases[i];
+							let src = source_of(c);
+							let in_read = std::fs::read_to_string(&pphase).map(|p| p == "read").unwrap_or(false);
+							json!({"ev":"case","origin":c["origin"].as_str().unwrap_or("writer"),"fmt":src.fmt,"tf":src.tf,"tc":src.tc,"tiles":src.tiles_json(),
+								"write_ok": in_read as u8, "write_err": if in_read { String::new() } else { status.clone() }, "choices": c.get("choices").cloned().unwrap_or(json!({})),
+								"decoded": {"skip":1,"ok":0,"tiles":[],"tf":"","tc":"","layout":{}},
+								"opened": {"ok":0,"tf":"","tc":"","cov":[],"err": if in_read { status.clone() } else { String::new() }},
+								"lookups": [], "absent": [], "streams": [], "expect": [], "walk": 0})
+						};
+						e["id"] = json!(i);
+						e["sparse"] = json!(1);
+						e["wall_ms"] = json!(t0.elapsed().as_millis() as u64);
+						v.push((i, e));
+						for f in std::fs::read_dir(&d).unwrap().flatten() {
+							let p = f.path();
+							if p != pin && p != pout && p != pphase {
+								remove_path(&p);
+							}
+						}
+						i += workers;
+					}
+					v
+				})
+			})
+			.collect();
+		hs.into_iter().map(|h| h.join().unwrap()).collect()
+	});
+	let mut slots: Vec<Option<Value>> = vec![None; cases.len()];
+	let mut died = 0u64;
+	for r in results {
+		for (i, e) in r {
+			died += (e["write_ok"] == 0 || e["opened"]["ok"] == 0) as u64;
+			slots[i] = Some(e);
+		}
+	}
+	for s in slots {
+		out.emit(&s.unwrap());
+	}
+	let lines = out.finish();
+	json!({"cases": cases.len(), "events": lines, "not_completed": died})
 }
 
 // ---------------------------------------------------------------------------------------------- random large cases
